@@ -89,6 +89,9 @@ type Interp struct {
 
 	frame   *Frame
 	initing *ssa.Package
+	fixed   map[int]*Term // term id -> constant it equals under the path condition
+	pcSet   map[int]bool  // ids of the conjuncts of pc
+	pcHash  uint64
 
 	known    []knownRegion
 	observed []string
@@ -118,7 +121,11 @@ func (in *Interp) newObject(root Value, t types.Type, label string) *Object {
 		copy(c.e, a.e)
 		root = c
 	}
-	return &Object{id: in.objSeq, root: root, typ: t, label: label}
+	o := &Object{id: in.objSeq, root: root, typ: t, label: label}
+	if in.initing != nil {
+		o.sess = in.sess
+	}
+	return o
 }
 
 // ---------------------------------------------------------------------------
@@ -132,6 +139,16 @@ func (in *Interp) assume(c *Term) {
 		panic(pathEnd{"infeasible", "assumed false"})
 	}
 	in.pc = append(in.pc, c)
+	in.pcHash = in.pcHash*1099511628211 + uint64(c.id) + 1
+	in.pcSet[c.id] = true
+	// x == const on the path condition: later uses of x fold to the constant
+	if c.op == OpEq && c.args[0].W > 0 {
+		if c.args[1].IsConst() && !c.args[0].IsConst() {
+			in.fixed[c.args[0].id] = c.args[1]
+		} else if c.args[0].IsConst() && !c.args[1].IsConst() {
+			in.fixed[c.args[1].id] = c.args[0]
+		}
+	}
 }
 
 func (in *Interp) feasible(c *Term) SatResult {
@@ -156,15 +173,27 @@ func (in *Interp) branch(c *Term) bool {
 	if c.IsFalse() {
 		return false
 	}
+	// already decided on this path (the same condition is often re-evaluated,
+	// e.g. when a program is parsed again): no decision, no query
+	if in.pcSet[c.id] {
+		return true
+	}
+	if in.pcSet[in.ts.Not(c).id] {
+		return false
+	}
 	if in.dpos < len(in.decisions) {
 		d := in.decisions[in.dpos]
 		in.dpos++
-		if d.alts[d.cur] == 1 {
-			in.assume(c)
-			return true
+		lit := c
+		if d.alts[d.cur] != 1 {
+			lit = in.ts.Not(c)
 		}
-		in.assume(in.ts.Not(c))
-		return false
+		if len(d.alts) == 1 {
+			in.note(lit) // implied by the path condition: not sent to the solver again
+		} else {
+			in.assume(lit)
+		}
+		return d.alts[d.cur] == 1
 	}
 	var alts []int64
 	rt := in.feasible(c)
@@ -184,12 +213,32 @@ func (in *Interp) branch(c *Term) bool {
 	}
 	in.decisions = append(in.decisions, decision{alts: alts})
 	in.dpos++
-	if alts[0] == 1 {
-		in.assume(c)
-		return true
+	lit := c
+	if alts[0] != 1 {
+		lit = in.ts.Not(c)
 	}
-	in.assume(in.ts.Not(c))
-	return false
+	if len(alts) == 1 {
+		in.note(lit)
+	} else {
+		in.assume(lit)
+	}
+	return alts[0] == 1
+}
+
+// note records a fact implied by the path condition: it is remembered for
+// syntactic reuse but not added to the solver's assertion stack.
+func (in *Interp) note(c *Term) {
+	if c.IsConst() {
+		return
+	}
+	in.pcSet[c.id] = true
+	if c.op == OpEq && c.args[0].W > 0 {
+		if c.args[1].IsConst() && !c.args[0].IsConst() {
+			in.fixed[c.args[0].id] = c.args[1]
+		} else if c.args[0].IsConst() && !c.args[1].IsConst() {
+			in.fixed[c.args[1].id] = c.args[0]
+		}
+	}
 }
 
 // choice picks one of n alternatives (all considered feasible).
@@ -217,7 +266,11 @@ func (in *Interp) concretize(t *Term, max int, what string) int64 {
 		d := in.decisions[in.dpos]
 		in.dpos++
 		v := d.alts[d.cur]
-		in.assume(in.ts.Eq(t, in.ts.ConstI(t.W, v)))
+		if len(d.alts) == 1 {
+			in.note(in.ts.Eq(t, in.ts.ConstI(t.W, v)))
+		} else {
+			in.assume(in.ts.Eq(t, in.ts.ConstI(t.W, v)))
+		}
 		return v
 	}
 	var alts []int64
@@ -253,7 +306,11 @@ func (in *Interp) concretize(t *Term, max int, what string) int64 {
 	sort.Slice(alts, func(i, j int) bool { return alts[i] < alts[j] })
 	in.decisions = append(in.decisions, decision{alts: alts})
 	in.dpos++
-	in.assume(in.ts.Eq(t, in.ts.ConstI(t.W, alts[0])))
+	if len(alts) == 1 {
+		in.note(in.ts.Eq(t, in.ts.ConstI(t.W, alts[0])))
+	} else {
+		in.assume(in.ts.Eq(t, in.ts.ConstI(t.W, alts[0])))
+	}
 	return alts[0]
 }
 
@@ -456,6 +513,13 @@ func (in *Interp) get(fr *Frame, v ssa.Value) Value {
 	if !ok {
 		panic(fmt.Sprintf("internal: unset register %s in %s", v.Name(), fr.fn))
 	}
+	if len(in.fixed) > 0 {
+		if t, ok := r.(*Term); ok && t.op != OpConst {
+			if c, ok := in.fixed[t.id]; ok {
+				return c
+			}
+		}
+	}
 	return r
 }
 
@@ -509,6 +573,29 @@ func (in *Interp) ensureInit(p *ssa.Package) {
 		return
 	}
 	in.initDone[p] = true
+	if cached, ok := in.sess.initCache[p]; ok {
+		for _, b := range cached {
+			in.globals[b.g] = b.o
+		}
+		return
+	}
+	in.sess.initDepth++
+	defer func() {
+		in.sess.initDepth--
+		if r := recover(); r != nil {
+			panic(r) // failed initialisation is not cached
+		}
+		var bs []globalBinding
+		for _, m := range p.Members {
+			if g, ok := m.(*ssa.Global); ok {
+				if o, ok := in.globals[g]; ok {
+					o.sess = in.sess
+					bs = append(bs, globalBinding{g, o})
+				}
+			}
+		}
+		in.sess.initCache[p] = bs
+	}()
 	// allocate all globals first
 	for _, m := range p.Members {
 		if g, ok := m.(*ssa.Global); ok {
@@ -628,6 +715,9 @@ func (in *Interp) runBlocks(fr *Frame, b *ssa.BasicBlock) Value {
 }
 
 func (in *Interp) backedge() {
+	if in.initing != nil {
+		return // package initialisers are concrete and finite
+	}
 	in.backedges++
 	if in.backedges > in.ob.MaxLoops {
 		panic(pathEnd{"unwind", fmt.Sprintf("loop budget %d exceeded in %s", in.ob.MaxLoops, in.frame.fn)})
@@ -733,7 +823,11 @@ func (in *Interp) exec(fr *Frame, instr ssa.Instruction) {
 	case *ssa.MakeMap:
 		mt := x.Type().Underlying().(*types.Map)
 		in.mapSeq++
-		fr.regs[x] = &MapV{m: &MapObj{id: in.mapSeq, kt: mt.Key(), vt: mt.Elem()}}
+		mo := &MapObj{id: in.mapSeq, kt: mt.Key(), vt: mt.Elem()}
+		if in.initing != nil {
+			mo.sess = in.sess
+		}
+		fr.regs[x] = &MapV{m: mo}
 	case *ssa.MakeSlice:
 		fr.regs[x] = in.makeSlice(x.Type().Underlying().(*types.Slice).Elem(), in.toInt64(in.get(fr, x.Len), x.Len.Type()), in.toInt64(in.get(fr, x.Cap), x.Cap.Type()))
 	case *ssa.MapUpdate:
@@ -854,10 +948,20 @@ func (in *Interp) selectElems(e []Value, idx *Term, lo, hi int) (Value, bool) {
 	if hi <= lo {
 		return nil, false
 	}
+	allConst := true
 	for i := lo; i < hi; i++ {
-		if _, ok := e[i].(*Term); !ok {
+		t, ok := e[i].(*Term)
+		if !ok {
 			return nil, false
 		}
+		if !t.IsConst() {
+			allConst = false
+		}
+	}
+	// constant tables are read through an ite chain; buffers with symbolic
+	// content are case-split on the index (unless the harness asks for ite)
+	if !allConst && !in.ob.IdxIte {
+		return nil, false
 	}
 	r := e[hi-1].(*Term)
 	for i := hi - 2; i >= lo; i-- {
@@ -883,7 +987,7 @@ func (in *Interp) store(p *PtrV, v Value) {
 					break
 				}
 			}
-			if allTerm {
+			if allTerm && in.ob.IdxIte {
 				for i, e := range arr.e {
 					c := in.ts.Eq(p.sym, in.ts.ConstU(p.sym.W, uint64(i)))
 					p.obj.setElem(p.path, i, in.ts.Ite(c, nv, e.(*Term)))
@@ -1094,6 +1198,9 @@ func (in *Interp) sliceOp(fr *Frame, x *ssa.Slice) Value {
 		in.boundsPanic(in.ts.ULe(lo, hi), "slice bounds out of range [x:y]")
 		if a.obj == nil {
 			return a
+		}
+		if !in.ob.IdxIte && !lo.IsConst() {
+			lo = in.ts.ConstI(64, in.concretize(lo, in.ob.MaxSplit, "slice low bound"))
 		}
 		return &SliceV{obj: a.obj, path: a.path, off: in.ts.Add(a.off, lo), len: in.ts.Sub(hi, lo), cap: in.ts.Sub(capT, lo)}
 	case *PtrV: // *array
